@@ -291,11 +291,13 @@ def _interval(conds, var: str):
 def check_prototypes(ctx, num=4):
     P = ctx.P
     cls = _gen_cls(P)
+    from ..util import unroll_const_loops
     for m in cls.methods.values():
+        m = unroll_const_loops(P, m)      # a prototype table scanned by a loop is the if-chain it abbreviates
         for c in calls_named(m, "Segment"):
             lit = all(isinstance(a, ast.Constant) or (isinstance(a, ast.UnaryOp) and isinstance(a.operand, ast.Constant)) for a in list(c.args) + [k.value for k in c.keywords])
             ctx.ob(num, "K5", "segments are taken from a closed set of prototypes: every Segment(...) in the generator has literal arguments", lit, m, c, detail=norm.U(c))
-    f = P.fn(WL, "WorkloadGenerator.generate_segment_from_val")
+    f = unroll_const_loops(P, P.fn(WL, "WorkloadGenerator.generate_segment_from_val"))
     ctx.touch(f)
     var = f.params()[1]
     try:
